@@ -22,3 +22,9 @@ add('C10', 'pyscan', 'runtime monitoring: block models rendered in random layout
 add('C11', 'pyscan', 'runtime monitoring: hostile comment text between two well-formed blocks through the real parse_comment_blocks; exception watcher on parse_comment_block, diagnostic recorder before the suppression test, position/caret oracle against the source text, counting oracle, --warn-error exit status through scanner_main',
     'held on the executions produced: nothing escaped and nothing raised inside the parser; neighbour blocks intact; rejected annotation fields left no annotations; every diagnostic named the file and a line of the block, quoted the real source line with the caret inside it (scope of the statement); every diagnostic counted whether displayed or not; scanner_main --warn-error failed exactly when a diagnostic was recorded',
     'trusted: mutation generators; caret check scoped to blocks whose /** stands alone and without deprecated tag-style annotations; CLI path uses the stand-in C front end', 'DESIGN.md 4 C11')
+
+ENGINES.append({"name": "fsched", "path": "vt/fsched.py", "serves_properties": ["C18"],
+     "kind_free_text": "baton scheduler + file-system-step proxies substituted into giscanner.cachestore (no repository edit): systematic and random interleavings, crash injection in a child process, real multi-process stress with an offline interval checker"})
+add('C18', 'fsched', 'runtime monitoring under a controlled scheduler: every interleaving of the file-system steps of two cache operations (and random ones of three) executed against the real CacheStore, histories judged offline (version current during [call,return], completeness, no escaping exception, purge); store killed at every step; real multi-process stress with SIGKILL',
+    'held on the executions produced except for 4 recorded known findings: all interleavings of every operation pair from every initial state on one and across two file systems, sampled triples, all crash points of a store, and a multi-process stress run; one defect (stat-after-open race) was found by the scheduler and fixed',
+    'trusted: scheduler/proxies (yield points only between file-system calls; cross-file-system publish observable per chunk); logical clock as mtime; _get_versionhash replaced by a constant inside the scheduler workload only', 'DESIGN.md 4 C18')
